@@ -56,7 +56,7 @@ def hostile_resp(draw) -> Dict[str, Any]:
     """A response about the browsed type (or the host's own names) whose record data carries odd-but-parsable labels: pointer
     targets, SRV targets and owner names that the instance will cache and later has to re-encode (known answers, echoes)."""
     return {'src': 'hresp', 'labels': draw(st.lists(st.sampled_from(HOSTILE_LABELS), min_size=1, max_size=2)),
-            'where': draw(st.sampled_from(['ptr-target', 'ptr-target', 'srv-target', 'srv-owner', 'a-owner'])),
+            'where': draw(st.sampled_from(['ptr-target', 'ptr-target', 'srv-target', 'srv-owner', 'a-owner', 'ptr-owner', 'ptr-owner'])),
             'ttl': draw(st.sampled_from([4500, 4500, 120, 1])), 'type_own': draw(st.sampled_from([False, False, True]))}
 
 
@@ -82,7 +82,10 @@ def item(draw) -> Dict[str, Any]:
     # gaps include hours: timers armed by earlier datagrams (refresh schedules, purges, queues) must survive too
     return {'d': d, 'gap': draw(st.sampled_from([0, 0, 1, 50, 500, 1100, 5000, 5000, 850000, 1130000, 3400000, 4600000])), 'port': draw(st.sampled_from([5353, 5353, 40001, 1])),
             'family': draw(st.sampled_from(['v4', 'v4', 'v6'])), 'sock': draw(st.integers(0, 2)), 'client': draw(st.integers(0, 2)),
-            'oversize': draw(st.sampled_from([None, None, None, None, 8967, 9000, 20000, 70000]))}
+            'oversize': draw(st.sampled_from([None, None, None, None, 8967, 9000, 20000, 70000])),
+            # what the application does at that moment: start another lookup (for the instance this datagram talks about), or cancel
+            # the latest one (asyncio.wait_for giving up, a task being cancelled) in the very loop iteration in which the datagram arrives
+            'app': draw(st.sampled_from([None] * 5 + ['start-lookup'] * 3 + ['cancel-lookup'] * 3))}
 
 
 def strategy(tier: str):
@@ -132,6 +135,9 @@ def build(d: Dict[str, Any]) -> bytes:
         elif d['where'] == 'srv-target':
             rr(tl, 12, d['ttl'], [inst]); n += 1
             rr(inst, 33, min(d['ttl'], 120), [bytes([0, 0, 0, 0, 0, 99]), odd + [('l', b'local'), ('end',)]]); n += 1
+        elif d['where'] == 'ptr-owner':
+            # a pointer whose owner is an odd label in front of the type: a browser of the type takes it for one of its own
+            rr(odd + tl, 12, d['ttl'], [inst]); n += 1
         elif d['where'] == 'srv-owner':
             rr(odd + tl, 33, min(d['ttl'], 120), [bytes([0, 0, 0, 0, 0, 99]), [('l', b'peerhost'), ('l', b'local'), ('end',)]]); n += 1
         else:
@@ -192,6 +198,8 @@ class Exec:
         self.browser = AsyncServiceBrowser(v.zc, TYPE_B, listener=lst)
         await asyncio.sleep(1.5)
         self.lookup = asyncio.ensure_future(AsyncServiceInfo(TYPE_B, LOOKUP_NAME).async_request(v.zc, 10000))
+        self.side: List[Any] = []
+        self.side_cancelled = 0
         rnd = random.Random(case['seed'])
         for it in case['stream']:
             if it['gap']:
@@ -218,6 +226,17 @@ class Exec:
                 src = ('10.0.0.%d' % (70 + it['client']), it['port'])
             before = self._state(w, v, lst) if len(data) > 8966 else None
             self.n_delivered += 1
+            app = it.get('app')
+            if app == 'start-lookup':
+                nm = f"peer{it['d'].get('inst', 0)}.{TYPE_B}" if it['d'].get('src') == 'vresp' else LOOKUP_NAME
+                self.side.append(asyncio.ensure_future(AsyncServiceInfo(TYPE_B, nm).async_request(v.zc, 3000)))
+                await asyncio.sleep(0.01)          # it has sent its first query and is waiting
+                before = self._state(w, v, lst) if len(data) > 8966 else None
+            elif app == 'cancel-lookup':
+                pend = [t for t in self.side if not t.done()]
+                if pend:
+                    pend[-1].cancel()              # and, before the cancelled task runs again, the datagram below arrives
+                    self.side_cancelled += 1
             try:
                 ep.proto.datagram_received(data, src)
             except HarnessError:
@@ -326,6 +345,9 @@ class Exec:
         # everything armed by the stream has fired by now (refresh schedules run at 75-95 % of up to 4500 s)
         await asyncio.sleep(4600.0)
         self.lookup_state = ('done', self.lookup.exception() if not self.lookup.cancelled() else 'cancelled') if self.lookup.done() else ('pending', None)
+        # lookups the application started during the stream: returned, or were cancelled by it - nothing else
+        self.side_state = [('pending' if not t.done() else 'cancelled' if t.cancelled() else repr(t.exception()) if t.exception() else 'ok')
+                           for t in self.side]
 
 
 def check(case: Dict[str, Any]) -> Dict[str, Any]:
@@ -374,6 +396,9 @@ def check(case: Dict[str, Any]) -> Dict[str, Any]:
         raise Violation('an instance the stream had mentioned was announced again (well-formed, alone) after the stream and the browser '
                         'does not report it', {'instances': ex.canary['reannounced_missing'],
                                                'callbacks': [(e['kind'], e['name']) for e in ex.lst.events][-8:]}, tag='canary-reannounce')
+    bad_side = [x for x in getattr(ex, 'side_state', []) if x not in ('ok', 'cancelled')]
+    if bad_side:
+        raise Violation('a lookup started by the application during the stream hung or raised', {'states': bad_side[:4]}, tag='side-lookup-died')
     if ex.lookup_state[0] != 'done' or ex.lookup_state[1] is not None:
         raise Violation('the lookup in progress died or hung', {'state': str(ex.lookup_state)}, tag='lookup-died')
     task = ex.browser._query_sender_task
@@ -386,5 +411,7 @@ def check(case: Dict[str, Any]) -> Dict[str, Any]:
         classes.append('oversized')
     if ex.hostile_valid_legacy:
         classes.append('hostile-but-parsable-from-legacy-port')
+    if getattr(ex, 'side_cancelled', 0):
+        classes.append('application-cancelled-a-lookup-as-a-datagram-arrived')
     return {'nontrivial': ex.hostile_valid_legacy > 0, 'classes': classes, 'max': {'stream': len(case['stream'])},
             'sample': {'case': {'socks': case['socks'], 'n': len(case['stream']), 'first': case['stream'][0]}}}
